@@ -30,6 +30,7 @@ type Prog struct {
 	Funcs  map[string]*ssa.Function // short RelString -> function (incl. closures)
 	All    []*ssa.Function          // every repo function with a body, sorted by name
 	Env    []string
+	Config string // "" for the default build configuration, else the extra env (e.g. "GOARCH=386")
 }
 
 // Short strips the module prefix from every occurrence in s.
@@ -69,7 +70,7 @@ func Load(repo string, extraEnv ...string) (*Prog, error) {
 	prog, spkgs := ssautil.AllPackages(pkgs, ssa.InstantiateGenerics)
 	prog.Build()
 	p := &Prog{Repo: repo, Fset: fset, Pkgs: pkgs, ByPath: map[string]*packages.Package{}, SSA: prog,
-		Funcs: map[string]*ssa.Function{}, Env: env}
+		Funcs: map[string]*ssa.Function{}, Env: env, Config: strings.Join(extraEnv, " ")}
 	repoPkgs := map[*ssa.Package]bool{}
 	for i, pk := range pkgs {
 		if !strings.HasPrefix(pk.PkgPath, strings.TrimSuffix(ModPrefix, "/")) {
